@@ -2,8 +2,10 @@ package engine
 
 import (
 	"context"
+	"encoding/base64"
 	"encoding/json"
 	"fmt"
+	"os"
 	"sort"
 	"strconv"
 	"strings"
@@ -24,10 +26,47 @@ func (s *Session) msConfig() *jobs.JobConfiguration {
 		deps = append(deps, map[string]interface{}{"dataset": s.DsReal(d.Ds), "joins": joins})
 	}
 	id := "ms-" + s.Tag
-	return &jobs.JobConfiguration{ID: id, Title: id, BatchSize: 1000,
+	cfg := &jobs.JobConfiguration{ID: id, Title: id, BatchSize: 1000,
 		Source:   map[string]interface{}{"Type": "MultiSource", "Name": s.DsReal(ms.Main), "Dependencies": deps},
 		Sink:     map[string]interface{}{"Type": "DevNullSink"},
 		Triggers: []jobs.JobTrigger{{TriggerType: jobs.TriggerTypeCron, JobType: jobs.JobTypeIncremental, Schedule: "0 0 1 1 *"}}}
+	if js, ok := s.msTrackQueries(); ok && s.Variant%2 == 1 && os.Getenv("VERIF_TRACK_QUERIES") != "0" {
+		// every second behaviour declares the same dependencies the other way: as the queries a transform would ask
+		// starting from a main entity (track_queries), from which the hub derives the dependencies itself
+		cfg.Source = map[string]interface{}{"Type": "MultiSource", "Name": s.DsReal(ms.Main)}
+		cfg.Transform = map[string]interface{}{"Type": "JavascriptTransform", "Code": base64.StdEncoding.EncodeToString([]byte(js))}
+	}
+	return cfg
+}
+
+// msTrackQueries renders the declared dependencies as a track_queries function: a dependency (d, [J1..Jk]) whose last
+// join lands in the main dataset is the query path main -> ... -> d read backwards, every hop in the other direction.
+func (s *Session) msTrackQueries() (string, bool) {
+	ms := s.H.Ms
+	var b strings.Builder
+	b.WriteString("function track_queries(start) {\n")
+	for _, d := range ms.Deps {
+		k := len(d.Joins)
+		if k == 0 || d.Joins[k-1].Ds != ms.Main {
+			return "", false
+		}
+		b.WriteString("  start")
+		for i := 1; i <= k; i++ {
+			j := d.Joins[k-i]
+			target := d.Ds
+			if i < k {
+				target = d.Joins[k-i-1].Ds
+			}
+			fn := "iHop" // the declared join is forward, the query from main goes against it
+			if j.Inv {
+				fn = "hop"
+			}
+			fmt.Fprintf(&b, ".%s(%q, %q)", fn, s.DsReal(target), s.PredURI(j.Pred))
+		}
+		b.WriteString(";\n")
+	}
+	b.WriteString("}\nfunction transform_entities(entities) { return entities; }\n")
+	return b.String(), true
 }
 
 // catchUp runs the MultiSource job until its continuation token stops moving and compares the
